@@ -434,6 +434,54 @@ class Body:
                 raise OverflowError("more than %d paths in %s" % (limit, self.path))
         return out
 
+    def const_paths(self, start, stop, limit=20000):
+        """Paths from `start` until a block in `stop` (or a return / dead end), pruned by constant
+        propagation of bare locals assigned integer/bool constants (A7).  Back edges are not unrolled.
+        Yields (path, reached_stop_block_or_None)."""
+        out = []
+        stack = [(start, [start], {})]
+        while stack:
+            b, path, env = stack.pop()
+            env = dict(env)
+            blk = self.blocks[b]
+            for st in blk["stmts"]:
+                if st["k"] != "assign":
+                    continue
+                pl, rv = st["place"], st["rv"]
+                if pl["proj"]:
+                    continue
+                l = pl["local"]
+                if rv["k"] == "use" and rv["op"]["k"] == "const" and "int" in rv["op"]:
+                    env[l] = rv["op"]["int"]
+                elif rv["k"] == "use" and rv["op"]["k"] in ("copy", "move") and not rv["op"]["place"]["proj"] \
+                        and rv["op"]["place"]["local"] in env:
+                    env[l] = env[rv["op"]["place"]["local"]]
+                else:
+                    env.pop(l, None)
+            t = blk["term"]
+            succs = self.succs(b)
+            if t["k"] == "call" and not t["dest"]["proj"]:
+                env.pop(t["dest"]["local"], None)
+            if t["k"] == "switch" and t["discr"]["k"] in ("copy", "move") and not t["discr"]["place"]["proj"] \
+                    and t["discr"]["place"]["local"] in env:
+                v = env[t["discr"]["place"]["local"]]
+                tg = {int(x): y for x, y in t["targets"]}
+                succs = [tg.get(v, t["otherwise"])]
+                succs = [x for x in succs if not self.blocks[x]["cleanup"]]
+            if not succs:
+                out.append((path, None))
+                continue
+            for s_ in succs:
+                if s_ in stop:
+                    out.append((path, s_))
+                    continue
+                if s_ in path:
+                    continue
+                stack.append((s_, path + [s_], env))
+            if len(out) + len(stack) > limit:
+                raise OverflowError("more than %d paths in %s" % (limit, self.path))
+        return out
+
     # ------------------------------------------------------------ statements / calls
     def calls(self):
         if self._calls is None:
